@@ -1055,10 +1055,10 @@ pub fn parsers() -> Vec<Parser> {
     ]);
     const KINDS: [&str; 4] = ["SliceDataInput", "ReaderDataInput", "RangeReader", "MmapDataInput"];
     macro_rules! inputs { ($($k:literal),*) => { $(
-        if $k != 0 { v.push(P!(Box::leak(format!("{}/read_length_prefixed_bytes", KINDS[$k]).into_boxed_str()), 0, false, $k != 3, p_in_lp_bytes::<$k>, seeds_lp)); }
+        if $k != 0 { v.push(P!(Box::leak(format!("{}/read_length_prefixed_bytes", KINDS[$k]).into_boxed_str()), 53, false, $k != 3, p_in_lp_bytes::<$k>, seeds_lp)); }
         if $k != 0 { v.push(P!(Box::leak(format!("{}/read_length_prefixed_string", KINDS[$k]).into_boxed_str()), 0, false, $k != 3, p_in_lp_string::<$k>, seeds_lp)); }
         v.push(P!(Box::leak(format!("{}/read_string(len)", KINDS[$k]).into_boxed_str()), 0, true, $k != 3, p_in_string::<$k>, seeds_raw));
-        v.push(P!(Box::leak(format!("{}/read_vec(len)", KINDS[$k]).into_boxed_str()), 0, true, $k != 3, p_in_vec::<$k>, seeds_raw));
+        v.push(P!(Box::leak(format!("{}/read_vec(len)", KINDS[$k]).into_boxed_str()), 54, true, $k != 3, p_in_vec::<$k>, seeds_raw));
         if $k != 0 { v.push(P!(Box::leak(format!("{}/var_int+skip+read_u8", KINDS[$k]).into_boxed_str()), 0, false, $k != 3, p_in_skip::<$k>, seeds_sdi_skip)); }
         v.push(P!(Box::leak(format!("{}/String::deserialize", KINDS[$k]).into_boxed_str()), 0, false, $k != 3, p_in_de_string::<$k>, seeds_lp));
         v.push(P!(Box::leak(format!("{}/Vec<String>::deserialize", KINDS[$k]).into_boxed_str()), 0, false, $k != 3, p_in_de_vec_string::<$k>, seeds_de_vec_string));
